@@ -1,4 +1,5 @@
 import Pose.Model.LMLoop
+import Pose.Model.Lie
 import Proofs.Real
 /-!
 Helper lemmas for C08 (the LM accept/reject loop, strategies).  Everything is at `α = ℝ`; the
@@ -180,6 +181,25 @@ theorem start_inv (cached : Option ℝ) (p : P) (s : S)
   exact ⟨rfl, Nat.zero_le _, rfl, fun _ => ⟨rfl, rfl, rfl⟩, fun h => by simp at h⟩
 
 
+omit hinv in
+theorem loop_preserves (I : S → Prop) (hI : ∀ s a b d, I s → I (e.upd s a b d)) :
+    ∀ (n : Nat) (st : St P S ℝ), I st.s → I (loop pr reject e n st).s := by
+  intro n
+  induction n with
+  | zero => intro st h; exact h
+  | succ n ih =>
+    intro st h
+    rw [loop_succ]
+    apply ih
+    rcases body_spec pr reject e st with ⟨_, hb⟩ | ⟨_, _, hb⟩ | ⟨_, _, _, hb⟩ | ⟨d, _, _, _, _, _, hb⟩ |
+      ⟨d, _, _, _, _, hb⟩
+    · rw [hb]; exact h
+    · rw [hb]; exact h
+    · rw [hb]; exact h
+    · rw [hb]; exact hI _ _ _ _ h
+    · rw [hb]; exact hI _ _ _ _ h
+
+
 /-! ### strategies at `ℝ` -/
 section strat
 omit hinv
@@ -259,5 +279,148 @@ theorem loop_prefix (p0 : P) (l0 : ℝ) (ds : Nat → D) (s0 : S) (j : Nat)
     have hr : j < reject := by omega
     simp only [body, le_real, le_refl, decide_true, Bool.and_self, if_true, hs, lt_real, hw, hr, hinv,
       sAfter_succ]
+
+
+end PP.LMLoop
+
+namespace PP.LMLoop
+
+/-! ### quaternion algebra for the SO3 instance of the retraction contract -/
+section so3
+open PP
+/-- both branches of `so3Exp` have the form `(f·x, g)` with `f, g` depending on `‖x‖` only; then
+`Exp(-x)·(Exp(x)·X) = ‖Exp x‖²·X` -/
+theorem quat_conj_sandwich (x : Vec3 ℝ) (f g : ℝ) (X : Quat ℝ) :
+    (Quat.mk' ((Vec3.neg x).smul f) g).mul ((Quat.mk' (x.smul f) g).mul X) =
+      ⟨(Quat.mk' (x.smul f) g).normSq * X.x, (Quat.mk' (x.smul f) g).normSq * X.y,
+       (Quat.mk' (x.smul f) g).normSq * X.z, (Quat.mk' (x.smul f) g).normSq * X.w⟩ := by
+  obtain ⟨a, b, c, w⟩ := X
+  obtain ⟨x1, x2, x3⟩ := x
+  simp only [Quat.mul, Quat.mk', Vec3.smul, Vec3.neg, Quat.normSq]
+  congr 1 <;> ring
+
+theorem normSq_mk (x : Vec3 ℝ) (f g : ℝ) :
+    (Quat.mk' (x.smul f) g).normSq = f ^ 2 * x.normSq + g ^ 2 := by
+  obtain ⟨x1, x2, x3⟩ := x
+  simp only [Quat.mk', Vec3.smul, Quat.normSq, Vec3.normSq]
+  ring
+
+
+theorem vec3_norm_neg (x : Vec3 ℝ) : (Vec3.neg x).norm = x.norm := by
+  simp [Vec3.norm, Vec3.normSq, Vec3.neg]
+
+theorem vec3_norm_sq (x : Vec3 ℝ) : x.norm * x.norm = x.normSq := by
+  unfold Vec3.norm
+  simp only [sqrt_real]
+  exact Real.mul_self_sqrt (by unfold Vec3.normSq; nlinarith [mul_self_nonneg x.x, mul_self_nonneg x.y, mul_self_nonneg x.z])
+end so3
+
+
+/-! ### TrustRegion: consecutive unsuccessful updates -/
+
+/-- `k` consecutive unsuccessful TrustRegion updates -/
+noncomputable def trustBad (h : Hyper ℝ) : Nat → SState ℝ → SState ℝ
+  | 0, s => s
+  | k + 1, s => updTrust h (trustBad h k s) Verdict.bad
+
+/-- triangular numbers `0, 0, 1, 3, 6, …` = `k(k-1)/2` -/
+def tri : Nat → Nat
+  | 0 => 0
+  | k + 1 => tri k + k
+
+theorem tri_eq (k : Nat) : 2 * tri k = k * (k - 1) := by
+  induction k with
+  | zero => rfl
+  | succ k ih =>
+    cases k with
+    | zero => rfl
+    | succ j =>
+      simp only [tri] at ih ⊢
+      simp only [Nat.add_sub_cancel] at ih ⊢
+      have : (j + 1 + 1) * (j + 1) = (j + 1) * j + 2 * (j + 1) := by ring
+      omega
+
+theorem updTrust_bad (h : Hyper ℝ) (t : SState ℝ) :
+    updTrust h t Verdict.bad =
+      { damping := 1 / clampMM h (1 / t.damping * t.down), radius := clampMM h (1 / t.damping * t.down),
+        down := clampMM h (t.down * h.factor) } := by
+  simp [updTrust]
+
+theorem trustBad_aux (h : Hyper ℝ) (s : SState ℝ) (k : Nat)
+    (hr : ∀ i, 1 ≤ i → i ≤ k → h.smin ≤ 1 / s.damping * s.down ^ i * h.factor ^ tri i ∧
+                      1 / s.damping * s.down ^ i * h.factor ^ tri i ≤ h.smax)
+    (hdn : ∀ i, 1 ≤ i → i ≤ k → h.smin ≤ s.down * h.factor ^ i ∧ s.down * h.factor ^ i ≤ h.smax) :
+    1 / (trustBad h k s).damping = 1 / s.damping * s.down ^ k * h.factor ^ tri k ∧
+    (trustBad h k s).down = s.down * h.factor ^ k ∧
+    (1 ≤ k → (trustBad h k s).radius = 1 / s.damping * s.down ^ k * h.factor ^ tri k) := by
+  induction k with
+  | zero => simp [trustBad, tri]
+  | succ k ih =>
+    obtain ⟨e1, e2, _⟩ := ih (fun i a b => hr i a (by omega)) (fun i a b => hdn i a (by omega))
+    have h1 := hr (k + 1) (by omega) le_rfl
+    have h2 := hdn (k + 1) (by omega) le_rfl
+    have ev : 1 / (trustBad h k s).damping * (trustBad h k s).down =
+        1 / s.damping * s.down ^ (k + 1) * h.factor ^ tri (k + 1) := by
+      rw [e1, e2]; simp only [tri]; ring
+    have ed : (trustBad h k s).down * h.factor = s.down * h.factor ^ (k + 1) := by
+      rw [e2]; ring
+    have hs : trustBad h (k + 1) s = updTrust h (trustBad h k s) Verdict.bad := rfl
+    rw [hs, updTrust_bad, ev, ed, clampMM_id h _ h1.1 h1.2, clampMM_id h _ h2.1 h2.2]
+    refine ⟨?_, rfl, fun _ => rfl⟩
+    simp
+
+
+/-! ### `RobustModel.loss` at ℝ -/
+
+theorem dsum_eq (l : List ℝ) : DVec.sum l = l.sum := by
+  unfold DVec.sum
+  simp only [k_real, Nat.cast_zero]
+  have : ∀ (a : ℝ) (l : List ℝ), List.foldl (· + ·) a l = a + l.sum := by
+    intro a l
+    induction l generalizing a with
+    | nil => simp
+    | cons b l ih => simp [List.foldl_cons, ih, add_assoc]
+  rw [this]; simp
+
+theorem normSq_nonneg (r : List ℝ) : 0 ≤ DVec.normSq r := by
+  unfold DVec.normSq DVec.dot
+  rw [dsum_eq]
+  apply List.sum_nonneg
+  intro x hx
+  simp only [List.mem_iff_getElem, List.getElem_zipWith, List.length_zipWith] at hx
+  obtain ⟨i, _, rfl⟩ := hx
+  exact mul_self_nonneg _
+
+theorem outputLoss_eq (rho : ℝ → ℝ) (o : Output ℝ) :
+    outputLoss rho o = (o.map (fun r => rho (DVec.normSq r))).sum := by
+  unfold outputLoss; rw [dsum_eq]
+
+theorem outputLoss_nonneg (rho : ℝ → ℝ) (hr : ∀ x, 0 ≤ x → 0 ≤ rho x) (o : Output ℝ) : 0 ≤ outputLoss rho o := by
+  rw [outputLoss_eq]
+  apply List.sum_nonneg
+  intro x hx
+  simp only [List.mem_map] at hx
+  obtain ⟨r, _, rfl⟩ := hx
+  exact hr _ (normSq_nonneg r)
+
+/-! ### predicates used in the statements of `Proofs/Props/C08.lean` -/
+
+/-- the optimizer object is *consistent*: its cached loss (if any) is the loss at its parameters -/
+def Consistent {P D S : Type} (pr : Prob P D ℝ) (o : Opt P S ℝ) : Prop :=
+  o.cached = none ∨ o.cached = some (pr.lossAt o.p)
+
+/-- the strategy bounds as a predicate on `pg` -/
+def InBounds (kd : Kind) (h : Hyper ℝ) (s : SState ℝ) : Prop :=
+  match kd with
+  | .constant => True
+  | .adaptive => h.smin ≤ s.damping ∧ s.damping ≤ h.smax
+  | .trust => h.smin ≤ s.radius ∧ s.radius ≤ h.smax ∧ h.smin ≤ s.down ∧ s.down ≤ h.smax ∧
+      s.damping * s.radius = 1
+
+/-- non-vacuity example: 1-D problem, loss `x²`, retraction `x + d`, a "solver" that overshoots twice
+(`d = -3x`, loss ×4) and then returns the Newton step -/
+def exProb : Prob ℝ ℝ ℝ := { lossAt := fun x => x * x, retr := fun x d => x + d, neg := fun d => -d }
+def exEnv : Env ℝ ℝ Nat ℝ :=
+  { solve := fun i x => if i < 2 then some (-3 * x) else some (-x), upd := fun s _ _ _ => s + 1 }
 
 end PP.LMLoop
